@@ -833,7 +833,10 @@ def matchBasic (cs : List Char) : Option (Option String × List Char) :=
 /-- `_parse_single_constraint` -/
 def parseSingle (x : Bool) (cs : List Char) : PyM Atom :=
   match matchStrCmp cs with
-  | some (v, op) => Atom.mk? x (String.ofList (strip v)) (String.ofList op)
+  | some (v, op) =>
+    -- `op = "not in" if len(m.group("op")) > 2 else "in"` (repo fix 4011dd2: the pattern is case
+    -- insensitive and allows any whitespace character inside "not in")
+    Atom.mk? x (String.ofList (strip v)) (if op.length > 2 then "not in" else "in")
   | none =>
     match matchBasic cs with
     | some (op, v) => Atom.mk? x (String.ofList (strip v)) (op.getD "==")
